@@ -98,7 +98,7 @@ Fixpoint join (sep : string) (l : list string) : string :=
   end.
 
 Inductive file := NoFile | File (d : db).
-Inductive op := OpCommit | OpWrite.
+Inductive op := OpCommit | OpWrite | OpRollback.
 Record sobs := mksobs { s_trace : list ev; s_open : db; s_end : db; s_disk : db }.
 
 Section Migrator.
@@ -193,6 +193,7 @@ Section Migrator.
     match o with
     | OpCommit => commit c
     | OpWrite => dml add_data c
+    | OpRollback => rollback c
     end.
 
   (* observations of one session: trace of the open, the session's view after the open and
@@ -312,8 +313,12 @@ Definition stamped_db (b : schema) (k : nat) : db :=
 (* ... or carries no stamp: r is RNoTable, REmpty or RRow None *)
 Definition unstamped_db (b : schema) (k : nat) (r : rev) : db := mkdb (schema_at b k) r 0.
 Definition unstamped (r : rev) : Prop := r = RNoTable \/ r = REmpty \/ r = RRow None.
-(* the migration performed by open_database on an existing file *)
-Definition opened (d : db) : conn * list ev := migrate real_md5 steps (mkconn d None).
+(* the migration performed by open_database on an existing file -- by the code AS IT IS (code_variant is read
+   off the source on every run; the correspondence ties exactly this function to the implementation) *)
+Definition opened (d : db) : conn * list ev := migrate_v real_md5 code_variant steps (mkconn d None).
+(* one session / a history of sessions of the code as it is, on the generated step list and mappers *)
+Definition code_session (f : file) (ops : list op) : sobs * file := run_session_v real_md5 code_variant orm_schema steps f ops.
+Definition code_history (f : file) (h : list (list op)) : list sobs * file := run_history_v real_md5 code_variant orm_schema steps f h.
 Definition raw_stmts (ss : list step) : list string := map fst (List.concat ss).
 
 (* ---------- correspondence cases ---------- *)
